@@ -245,3 +245,146 @@ def verify_molecular():
         for vv in out[-2:]:
             vv.seconds = dt / 2
     return out
+
+
+# ---- Ising (automaton) and linear fermionic operators (hand-built graph) with symbolic parameters ---------------------
+
+def _num(c, sub):
+    import sympy
+    return complex(sympy.sympify(c).subs(sub))
+
+
+def automaton_dense(autop, L, opmap, sub):
+    """operator denoted by an operator state automaton unrolled to L sites (own forward evaluation)"""
+    d = np.asarray(next(iter(opmap.values()))).shape[0]
+    cur = {autop.nid_terminal[0]: np.ones((1, 1), dtype=complex)}
+    for i in range(L):
+        nxt = {}
+        for e in autop.edges.values():
+            act = e.active(i) if callable(e.active) else e.active
+            if not act or e.nids[0] not in cur:
+                continue
+            opics = e.opics(i) if callable(e.opics) else e.opics
+            loc = sum(_num(c, sub) * np.asarray(opmap[o], dtype=complex) for o, c in opics)
+            m = np.kron(cur[e.nids[0]], loc)
+            nxt[e.nids[1]] = nxt.get(e.nids[1], 0) + m
+        cur = nxt
+    return cur.get(autop.nid_terminal[1], np.zeros((d ** L, d ** L), dtype=complex))
+
+
+def graph_dense(graph, opmap, sub):
+    memo = {}
+    def rec(nid):
+        if nid == graph.nid_terminal[1]:
+            return np.ones((1, 1), dtype=complex)
+        if nid in memo:
+            return memo[nid]
+        tot = 0
+        for eid in graph.nodes[nid].eids[1]:
+            e = graph.edges[eid]
+            loc = sum(_num(c, sub) * np.asarray(opmap[o], dtype=complex) for o, c in e.opics)
+            tot = tot + np.kron(loc, rec(e.nids[1]))
+        memo[nid] = tot
+        return tot
+    return rec(graph.nid_terminal[0])
+
+
+def verify_graph_models():
+    import sympy
+    from .runtime import h_ham
+    out = []
+    ptn, ham = _load_pytenet()
+    # ---- Ising: intercept OpGraph.from_automaton
+    J, h, g = sympy.symbols('J h g', real=True)
+    fn = 'hamiltonian.ising_mpo'
+    t0 = time.time()
+    try:
+        box = {}
+        OG = ham.OpGraph
+        orig = OG.__dict__['from_automaton']
+        def rec(cls, autop, length):
+            box.update(autop=autop, L=length); raise _Captured()
+        OG.from_automaton = classmethod(rec)
+        try:
+            try:
+                ham.ising_mpo(3, J, h, g)
+            except _Captured:
+                pass
+        finally:
+            OG.from_automaton = orig
+        if not box:
+            out.append(Verdict('ising_mpo: automaton captured', 'S', 'undecided', 'constructor no longer calls OpGraph.from_automaton', 0, fn, 'ensures', 'sympy'))
+        else:
+            autop = box['autop']
+            opmap = {0: np.identity(2), 1: np.array([[1., 0.], [0., -1.]]), 2: np.array([[0., 1.], [1., 0.]])}     # OID.I, OID.Z, OID.X of the constructor
+            lin = all(sympy.Poly(sympy.sympify(c), J, h, g).total_degree() <= 1 for e in autop.edges.values() for _, c in (e.opics if not callable(e.opics) else []))
+            prod_ok = True
+            ok = True; where = ''; worst = 0.0
+            # the operator is multilinear in the edge coefficients; it is *linear* in (J, h, g) iff no path multiplies two parameters:
+            # checked at the basis points and at one generic point (J, h, g) = (2, 3, 5) against linearity
+            pts = [(1, 0, 0), (0, 1, 0), (0, 0, 1), (2, 3, 5)]
+            for L in (1, 2, 3, 4):
+                vals = {}
+                for p in pts:
+                    sub = {J: p[0], h: p[1], g: p[2]}
+                    Hc = automaton_dense(autop, L, opmap, sub)
+                    Hr = np.asarray(h_ham.ising_ref(L, *[float(x) for x in p]), dtype=complex)
+                    err = float(np.linalg.norm(Hc - Hr)); worst = max(worst, err)
+                    vals[p] = Hc
+                    if err > 1e-12 * max(1.0, float(np.linalg.norm(Hr))):
+                        ok = False; where = f'L={L}, (J,h,g)={p}: |automaton - textbook| = {err:.3e}'
+                if np.linalg.norm(vals[(2, 3, 5)] - (2 * vals[(1, 0, 0)] + 3 * vals[(0, 1, 0)] + 5 * vals[(0, 0, 1)])) > 1e-12:
+                    prod_ok = False
+            out.append(Verdict('ising_mpo: automaton edge coefficients are linear forms and no path multiplies two parameters', 'S',
+                               'discharged' if lin and prod_ok else 'refuted', '', 0, fn, 'ensures', 'sympy'))
+            v = Verdict('ising_mpo: unrolled automaton equals sum J ZZ + h Z + g X for every (J, h, g) (linearity + basis points, L=1..4)', 'S',
+                        'discharged' if ok else 'refuted', where + (' (needs native confirmation)' if not ok else f'max deviation {worst:.1e}'), 0, fn, 'ensures', 'sympy+numpy')
+            v.confirm = ['ising_mpo']
+            out.append(v)
+    except Exception as e:
+        out.append(Verdict('ising_mpo: symbolic execution', 'S', 'undecided', f'{type(e).__name__}: {e}', 0, fn, 'ensures', 'sympy'))
+    for vv in out:
+        vv.seconds = (time.time() - t0) / max(1, len(out))
+    # ---- linear fermionic operators: intercept MPO.from_opgraph
+    fn = 'hamiltonian.linear_fermionic_mpo'
+    n0 = len(out); t0 = time.time()
+    try:
+        for ftype in ('c', 'a'):
+            for L in (1, 2, 3, 4, 5):
+                fs = sympy.symbols(f'f0:{L}')
+                box = {}
+                MP = ham.MPO
+                orig = MP.__dict__['from_opgraph']
+                def rec(cls, qd, graph, opmap, compute_nid_map=False):
+                    box.update(qd=qd, graph=graph, opmap=opmap); raise _Captured()
+                MP.from_opgraph = classmethod(rec)
+                try:
+                    try:
+                        ham.linear_fermionic_mpo(list(fs), ftype)
+                    except _Captured:
+                        pass
+                finally:
+                    MP.from_opgraph = orig
+                if not box:
+                    out.append(Verdict(f'linear_fermionic_mpo[{ftype}, L={L}]: graph captured', 'S', 'undecided', 'no call of MPO.from_opgraph', 0, fn, 'ensures', 'sympy'))
+                    continue
+                ok = True; where = ''
+                for k in range(L):
+                    for val in (1.0, 1j):
+                        sub = {s: (val if j == k else 0) for j, s in enumerate(fs)}
+                        Hc = graph_dense(box['graph'], box['opmap'], sub)
+                        coeff = np.array([val if j == k else 0 for j in range(L)], dtype=complex)
+                        Hr = np.asarray(h_ham.linear_fermionic_ref(coeff, ftype), dtype=complex)
+                        if np.linalg.norm(Hc - Hr) > 1e-12:
+                            ok = False; where = f'e_{k}*{val}: deviation {np.linalg.norm(Hc - Hr):.3e}'
+                lin = all(sympy.Poly(sympy.sympify(c), *fs).total_degree() <= 1 and abs(complex(sympy.sympify(c).subs({s: 0 for s in fs})) - round(abs(complex(sympy.sympify(c).subs({s: 0 for s in fs}))))) < 1e-15
+                          for e in box['graph'].edges.values() for _, c in e.opics)
+                v = Verdict(f'linear_fermionic_mpo[{ftype}, L={L}]: hand-built graph equals sum_i f_i op_i for every coefficient vector', 'S',
+                            'discharged' if ok and lin else 'refuted', where + (' (needs native confirmation)' if not (ok and lin) else ''), 0, fn, 'ensures', 'sympy+numpy')
+                v.confirm = ['linear_fermionic_mpo']
+                out.append(v)
+    except Exception as e:
+        out.append(Verdict('linear_fermionic_mpo: symbolic execution', 'S', 'undecided', f'{type(e).__name__}: {e}', 0, fn, 'ensures', 'sympy'))
+    for vv in out[n0:]:
+        vv.seconds = (time.time() - t0) / max(1, len(out) - n0)
+    return out
